@@ -18,6 +18,9 @@ fp("dask/array/_shuffle.py", "shuffle", "_shuffle", "_calculate_new_chunksizes",
 fp("dask/array/routines.py", "_bincount_agg", "bincount", "digitize", "_searchsorted_block", "searchsorted", "_block_hist",
    "histogram", "histogram2d", "histogramdd", "_unique_internal", "unique", "isin", "_isin_kernel", "argwhere", "nonzero",
    "flatnonzero", "count_nonzero", "unravel_index", "ravel_multi_index", "aligned_coarsen_chunks", "coarsen", "compress", "extract")
+fp("dask/array/routines.py", "_partition", "_block_histogramdd_rect", "_block_histogramdd_multiarg", "_unravel_index_kernel",
+   "isnonzero", "_linspace")
+fp("dask/array/chunk.py", "coarsen")
 
 
 # ---------------------------------------------------------------------------------------------
